@@ -2,6 +2,7 @@ package main
 
 import (
 	"fmt"
+	"go/token"
 	"go/types"
 
 	"golang.org/x/tools/go/ssa"
@@ -81,6 +82,12 @@ type State struct {
 	path     string
 	entryHeap map[string]Term // always empty map with epoch 0 (entry state)
 	held     map[string]bool
+	dirty    map[string]dirtyObj
+}
+
+type dirtyObj struct {
+	Ref Term
+	T   types.Type // struct type
 }
 
 func (st *State) clone() *State {
@@ -104,6 +111,10 @@ func (st *State) clone() *State {
 	n.held = make(map[string]bool, len(st.held))
 	for k, v := range st.held {
 		n.held[k] = v
+	}
+	n.dirty = make(map[string]dirtyObj, len(st.dirty))
+	for k, v := range st.dirty {
+		n.dirty[k] = v
 	}
 	n.frame = cloneFrame(st.frame)
 	return &n
@@ -157,4 +168,90 @@ func (fv *FV) freshConst(st *State, prefix string, sort string, t types.Type) Te
 	n := fv.fresh(prefix)
 	st.emit(fmt.Sprintf("(declare-const %s %s)", n, sort))
 	return Term{S: n, Sort: sort, T: t}
+}
+
+// ---- allocation model: references are handed out by a counter -----------------
+// allocated(x) := 0 <= x < next ; a fresh object gets ref == next.
+
+func (fv *FV) nextOf(heap map[string]Term, epoch int) Term {
+	return fv.heapGet(heap, epoch, "pv_next", SInt)
+}
+
+func (fv *FV) isAlloc(heap map[string]Term, epoch int, x Term) Term {
+	n := fv.nextOf(heap, epoch)
+	return Term{S: fmt.Sprintf("(and (<= 0 %s) (< %s %s))", x.S, x.S, n.S), Sort: SBool}
+}
+
+func (fv *FV) allocAtEntry(x Term) Term {
+	return fv.isAlloc(map[string]Term{}, 0, x)
+}
+
+// ---- type invariants -------------------------------------------------------------
+
+func (fv *FV) typeInvOf(structT types.Type) *TypeInvSpec {
+	n, ok := structT.(*types.Named)
+	if !ok || n.Obj().Pkg() == nil {
+		return nil
+	}
+	return fv.eng.specs.TypeInvs[n.Obj().Pkg().Name()+"."+n.Obj().Name()]
+}
+
+func (fv *FV) typeInvTerm(st *State, ti *TypeInvSpec, ref Term, structT types.Type, errs *[]string) Term {
+	ref.T = types.NewPointer(structT)
+	env := &Env{fv: fv, st: st, heap: st.heap, epoch: st.epoch, vars: map[string]Term{ti.Var: ref}, pkgName: ti.PkgName, err: errs}
+	return env.Eval(ti.Clause.E)
+}
+
+func (fv *FV) markDirty(st *State, ref Term, structT types.Type) {
+	if fv.typeInvOf(structT) == nil {
+		return
+	}
+	if st.dirty == nil {
+		st.dirty = map[string]dirtyObj{}
+	}
+	st.dirty[ref.S] = dirtyObj{Ref: ref, T: structT}
+}
+
+// assumeTypeInv: a reference of pointer type obtained from a parameter, the heap or a callee
+// denotes an object satisfying its type invariant, unless it is one this activation is mutating.
+func (fv *FV) assumeTypeInv(st *State, ref Term, ptrT types.Type) {
+	el, ok := isPtr(ptrT)
+	if !ok {
+		return
+	}
+	ti := fv.typeInvOf(el)
+	if ti == nil {
+		return
+	}
+	var errs []string
+	inv := fv.typeInvTerm(st, ti, ref, el, &errs)
+	guards := []Term{tNot(tEq(ref, mkInt(0)))}
+	for _, k := range sortedKeys(st.dirty) {
+		d := st.dirty[k]
+		if types.Identical(d.T, el) {
+			guards = append(guards, tNot(tEq(ref, d.Ref)))
+		}
+	}
+	st.assume(tImp(tAnd(guards...), inv))
+	fv.reportErrs(errs)
+}
+
+// checkTypeInvs: objects written in this activation must satisfy their invariant again
+// before control leaves (call, return, loop head).
+func (fv *FV) checkTypeInvs(st *State, pos token.Pos) {
+	if len(st.dirty) == 0 {
+		return
+	}
+	for _, k := range sortedKeys(st.dirty) {
+		d := st.dirty[k]
+		ti := fv.typeInvOf(d.T)
+		if ti == nil {
+			continue
+		}
+		var errs []string
+		inv := fv.typeInvTerm(st, ti, d.Ref, d.T, &errs)
+		fv.oblige(st, "typeinv", typeShort(d.T), pos, inv, ti.Clause.Text)
+		fv.reportErrs(errs)
+	}
+	st.dirty = map[string]dirtyObj{}
 }
